@@ -48,6 +48,12 @@ Theorem c20_levenshtein_refines : forall w1 w2 : str,
 Proof. exact levenshtein_refines. Qed.
 Print Assumptions c20_levenshtein_refines.
 
+(* sanity of that specification through the code: distance 0 to itself, |w| to the empty word *)
+Theorem c20_levenshtein_self : forall w : str,
+  levenshtein w w = POk 0%N /\ levenshtein w [] = POk (N.of_nat (List.length w)).
+Proof. exact (fun w => conj (levenshtein_self w) (levenshtein_empty_r w)). Qed.
+Print Assumptions c20_levenshtein_self.
+
 Theorem c20_fuzzy_search_no_panic : forall (key : str) (lst : list str) (maxd : option N),
   exists o, fuzzy_search_limited key lst maxd = POk o.
 Proof. exact fuzzy_search_no_panic. Qed.
